@@ -131,6 +131,8 @@ func quickEdit(desc string) bool {
 	switch {
 	case strings.HasPrefix(desc, "delete "), strings.HasSuffix(desc, " to null"), strings.HasPrefix(desc, "set "), strings.HasPrefix(desc, "add $ref \"#/definitions/Nope"), strings.HasPrefix(desc, "add patternProperties"):
 		return true
+	case strings.HasPrefix(desc, "rename ") && strings.Contains(desc, `/default to "example"`), strings.HasPrefix(desc, "add type string to the body"), strings.HasPrefix(desc, "add additionalItems"):
+		return true
 	case strings.HasPrefix(desc, "rename ") && (strings.HasSuffix(desc, `to "id"`) || strings.HasSuffix(desc, `to "a.a"`) || strings.HasSuffix(desc, `to ""`)):
 		return true
 	}
